@@ -649,6 +649,12 @@ def c20(tier, seed, only):
         for n_ in (2, 3) if tier == "quick" else (2, 3, 4):
             r_ = chk.explore("model_knapsack", dict(n=n_), f"knapsack/symbolic volumes and capacity/n={n_}")
             chk.require("knapsack", r_.acc.counts.get("constructor-path", 0) > 0, "constructor never returned")
+    if not only or "golomb" in only:
+        from nusym import h_golomb  # noqa
+
+        for n_ in (4, 5) if tier == "quick" else (4, 5, 6):
+            r_ = chk.explore("golomb_step", dict(mark_nb=n_), f"golomb/pruning step from any state of the search invariant/marks={n_}", time_limit=900 if tier == "quick" else 5400)
+            chk.require("golomb", any(k.startswith("pruned:") for k in r_.acc.counts), "the pruning step never completed")
     chk.require("C20", len(rep.items) > 20 or only, "too few model queries")
     chk.res.acc.samples.extend(rep.items[:6])
     chk.extra_cov.update(
@@ -660,6 +666,6 @@ def c20(tier, seed, only):
     )
     chk.functions.update(["the constructors of QueensProblem, LatinSquareProblem, LatinSquareRCProblem, Quasigroup5Problem, MagicSquareProblem, MagicSequenceProblem, GolombProblem, BIBDProblem, SchurLemmaProblem, SportsTournamentSchedulingProblem, KnapsackProblem, CircuitProblem, TSPProblem, SudokuProblem, AlphaProblem, DonaldProblem"])
     chk.bounds = dict(sizes="queens<=6/8, latin<=3/4, quasigroup5 5/5-7, magic square 3/3-4, magic sequence<=8/10, golomb 3-5/3-6 marks, bibd (6,10,5,3,2) (7,7,3,3,1), schur 3,6,9 / ..14, sports 4 / 4,6, knapsack shipped, circuit<=4/6, tsp shipped 4x4, sudoku all givens (validity) + shipped grid, alpha, donald (quick/thorough)")
-    chk.assumptions += ["relation encoders (nusym/relations.py) are the documented relations; they are validated against the repository's unit-test vectors by the propagator checks", "instance sizes beyond the list, and that the search returns the objects at large sizes, are outside the claim", "the Golomb custom consistency algorithm is exercised only through the real-solver replay (optimum 3..6 marks)"]
+    chk.assumptions += ["relation encoders (nusym/relations.py) are the documented relations; they are validated against the repository's unit-test vectors by the propagator checks", "instance sizes beyond the list, and that the search returns the objects at large sizes, are outside the claim", "the Golomb custom consistency algorithm: its pruning step is executed symbolically from every state of the search invariant (4-5 marks quick, 6 thorough; BC stubbed: no ruler of the box is lost, indices in range); a counterexample is reported only if the real solver then returns a wrong optimum on 4..8 marks"]
     batch = [dict(i, harness="models") for i in rep.instances if (i.get("count") is not None or i.get("optimum") is not None)]
     return chk.finish({"models": batch}, both_modes=False, validate_jit_only=True)
